@@ -8,6 +8,18 @@ CHECKS = {
  "C01": dict(cat="exploration", ref="4/C01", tech="property-based testing: Hypothesis-generated machines x configs x histories against a reference interpreter (model-based oracle)",
    text="Generated valid machine definitions, option combinations and event histories with re-drawn guard valuations are run against the real library and against an independent reference interpreter of the documented selection rule; states, exceptions (class, .event, .state), results and the full callback log must agree after every step. Exploration is the right level: the property quantifies over all definitions and histories, which can only be sampled.",
    note="Trusted: the reference interpreter (vcheck/core.py, no library code), Hypothesis. Assumes guards are side-effect free (evaluation of guards of rejected candidates is not asserted). Not covered: same name in cond and unless of one transition (finding K8)."),
+ "C02": dict(cat="exploration", ref="4/C02", tech="property-based testing: generated machines with callbacks attached in every documented style, callback log parsed by a reference interpreter (model-based oracle)",
+   text="Generated machines carry callbacks in every group, attached by naming convention, by name, by function, by decorator, on machine/model/listeners, sync or coroutine; every callback records what it was given and what current state it reads. A reference interpreter parses the recorded log: group order, exactly-once, event scoping of before_/on_/after_<e>, no exit/enter for internal transitions, nothing from rejected candidates, '__initial__' activation, source/target view of state. Sampling is the only way to cover 'all machines and all ways of attaching'.",
+   note="Trusted: reference interpreter, Hypothesis. Order inside one group is not asserted (documented as unspecified). Two same-named free callables in one group are outside the valid-definition domain."),
+ "C03": dict(cat="exploration", ref="4/C03", tech="property-based testing: generated nested-send scripts and self-triggering chains against a reference interpreter with an explicit FIFO queue; stack-depth metamorphic check",
+   text="Every generated callback may carry scripted nested sends with unique payloads (any group, provider, initial activation included); a reference interpreter with an explicit FIFO queue (RTC) or recursion (rtc=False) parses the callback log, checking queueing, FIFO order, no interleaving, None for nested calls, first-event result for the outermost call; chains up to 300 (quick) / 5000 (thorough) self-triggered events must run at constant call-stack depth.",
+   note="Trusted: reference interpreter. In machines with coroutine callbacks nested sends are issued by coroutine callbacks only (finding K7). Chain length bounded by the tier."),
+ "C04": dict(cat="fault_enumeration", ref="4/C04", tech="fault injection: exhaustive enumeration of every callback invocation of generated scenarios as crash point (plus generated double faults), outcome checked by a reference interpreter",
+   text="For each generated scenario a fault-free run lists every callback invocation; each one (cap 60 per scenario) is made to raise on a fresh instance, optionally followed by a second failure later on; the reference interpreter decides the exception that must escape (object identity), the state that must remain (source/target rule) and the exact log of all following events (queued events dropped, machine usable). Crash points of a scenario are enumerated completely, scenarios are sampled.",
+   note="Trusted: reference interpreter. Siblings of the failing callback within its group are unconstrained. In async fault runs callbacks with nested sends do not yield. Failures inside the constructor's initial activation are only checked for the escaping exception."),
+ "C14": dict(cat="exploration", ref="4/C14", tech="property-based testing: generated return values and callback placements, result compared with the documented rule computed by a reference interpreter",
+   text="Generated machines with 0-4 before/on callbacks per transition in all attach styles returning arbitrary values, decoy return values in every other group, silent transitions and queued events; after every event the returned value must be None / the single value / the list of before then on values as computed by the reference interpreter from the parsed callback log.",
+   note="Trusted: reference interpreter. Order inside the before part and inside the on part is not asserted."),
 }
 def main():
     checks = []
